@@ -825,6 +825,7 @@ func runScenario(sc *scenario, rep *vh.Report, rng *rand.Rand) []map[string]any 
 	deadline := time.Now().Add(time.Duration(4+len(sc.Steps)) * time.Second)
 	var freeSince time.Time
 	stuck, hung := false, false
+	probed := false
 	for {
 		w.mu.Lock()
 		pending, held := 0, 0
@@ -851,11 +852,40 @@ func runScenario(sc *scenario, rep *vh.Report, rng *rand.Rand) []map[string]any 
 			if freeSince.IsZero() {
 				freeSince = time.Now()
 			} else if time.Since(freeSince) > validity+2*time.Second {
-				stuck = true
-				break
+				// A waiter counts as parked on a free lock only while its client demonstrably reaches the server: on a
+				// starved machine the client of a locker whose connection was cut can take seconds to get through again,
+				// and a waiter that cannot send its acquisition has not missed a wake-up. Every pending locker's client
+				// must answer a PING, and the waiter must then stay parked for another full period.
+				if !probed {
+					ok := true
+					w.mu.Lock()
+					var hs []int
+					for _, p := range w.procs {
+						if p.state == "pending" {
+							hs = append(hs, p.h)
+						}
+					}
+					w.mu.Unlock()
+					for _, h := range hs {
+						pctx, pcancel := context.WithTimeout(context.Background(), 3*time.Second)
+						cl := w.lockers[h].Client()
+						if err := cl.Do(pctx, cl.B().Ping().Build()).Error(); err != nil {
+							ok = false
+						}
+						pcancel()
+					}
+					if ok {
+						probed = true
+					}
+					freeSince = time.Now()
+				} else {
+					stuck = true
+					break
+				}
 			}
 		} else {
 			freeSince = time.Time{}
+			probed = false
 		}
 		if time.Now().After(deadline) {
 			if held == 0 {
